@@ -471,7 +471,6 @@ pub fn run(ctx: &Ctx) -> ! {
             assumptions: vec![
                 "window clause: A = highest valid cumulative ACK the driver delivered to the sender, W = window of the last ACK-bearing non-RST segment (SYN/SYN-ACK before that) it delivered, evaluated per side once the wire shows that side established".into(),
                 "netstat is trusted for send_q / recv_q; the API-level conservation checks use only write/read return values and wire ACK numbers".into(),
-                "zero-window probes carry no payload and are not bytes in flight".into(),
             ],
             min_distinct: ctx.pick(4_000, 40_000),
             required_counters: vec![
